@@ -28,6 +28,12 @@ CLAIMS = {
         note=LEAN_NOTE + "bytes crate panic conditions as modelled in Model/Basic.lean; heap budget 64 x bytes received + 32 KiB",
         technique="Lean 4 proof (explicit panic outcomes, retained-bytes invariant) + hostile-input correspondence with heap/stack observation",
     ),
+    "C04": dict(
+        engine="world",
+        text="Table clauses are PROOFS over tables regenerated from the real code on every run (decide): SocketType::compatible total, symmetric and equal to the RFC 28/29/30/31 relation on all 144 pairs; names and near-misses; mechanism field. Lean 4 theorems on the World model's handshake decision: admit <-> (Socket-Type present, known, RFC-compatible, Identity <= 255); admitted under the announced identity or a fresh one; registered exactly once; a rejected connection changes no socket and drops both halves. Tie: real handshake via attach over scripted pipes on the FULL compatibility plane 9x14, every single-factor deviation, pairwise sample (quick) / whole product ~1.1e5 (thorough); python RFC oracle.",
+        note=LEAN_NOTE + "UUIDv4 uniqueness for fresh identities; RFC table as typed in",
+        technique="Lean 4 proof (decide over regenerated tables; iff on the admission decision) + exhaustive handshake-grid correspondence",
+    ),
     "C05": dict(
         engine="fq",
         text="Lean 4 invariants over the micro-step model of the fair queue (lock sections A/B/C, insert/remove/arrive/close landing anywhere, incl. inside the unlocked window), proved preserved by every step and hence true after ANY finite schedule with any number of peers: conservation (given = delivered ++ in-flight ++ still queued), per-peer prefix order, no duplicates, at most one stream checked out. Tie: the real FairQueue over scripted streams replays the SAME schedule as the model and must give the same result for every poll (exhaustive op sequences for 2/3 peers, every single window-action placement, seeded random); Spec oracle on the implementation's trace (prefix, no-dup, completeness after drain). Socket-level recv filters are tied by the world engine as it grows.",
@@ -57,6 +63,18 @@ CLAIMS = {
         text="Lean 4: in the World model the recv future of every fair-queue socket is stateless (a pending poll leaves exactly the freshly-issued future), REQ keeps the request marker in the socket while its recv is pending, and at fair-queue level abandon+reissue is a spurious poll, covered by the conservation invariant for all schedules. Tie (the substance): real recv futures of all 7 socket types polled k=1..3 times and DROPPED at every byte-arrival position of a two-message stream, repeated, then drained — the model must predict every line; oracle: drained sequence = messages on the wire; REQ refuses the second send and returns the first reply.",
         note=LEAN_NOTE + "futures are dropped between polls only",
         technique="Lean 4 proof (stateless-future lemmas, REQ marker invariant) + exhaustive cancellation-point correspondence",
+    ),
+    "C09": dict(
+        engine="world",
+        text="Lean 4 theorems on the World model's ROUTER functions: a send to an identity no connected peer has returns the WHOLE world unchanged with an error; a send to a connected identity touches no pipe but that peer's and appends exactly the encoding of the remaining frames; recv prefixes the fair-queue key (the identity admitted at the handshake, C04) and nothing else. Tie: real ROUTER with 1..4 scripted peers, exhaustive identity assignments x every target choice (each peer, unknown, empty, 256 bytes, a peer that has gone), all interleavings of two peers' messages, seeded 4-peer schedules; wires of every peer after every send; python oracle.",
+        note=LEAN_NOTE + "distinct identities of simultaneously connected peers; auto identities compared via placeholders",
+        technique="Lean 4 proof (map lookup laws, frame lemma on wires) + differential correspondence",
+    ),
+    "C10": dict(
+        engine="world",
+        text="Lean 4: rotation laws on the pop-front/push-back queue (n consecutive sends over n peers hit each exactly once and restore the queue; distinct; permutation), and on the World model's send_round_robin: empty rotation -> world unchanged with the message handed back; a completed send touched only the chosen peer's pipe, left its buffer EMPTY (fully written) and pushed the peer back. Tie: real PUSH/DEALER/REQ with 0..5 scripted peers x join positions x 2n+1 sends, wires of every peer at the instant send returns Ready, partial-write and stall/resume credit scripts with the wire read while Pending; python oracle for one-peer/complete/rotation.",
+        note=LEAN_NOTE + "crossbeam SegQueue as FIFO; cancelling a send mid-flush is outside the quantifier",
+        technique="Lean 4 proof (rotation invariant, frame lemma, flushed-at-return) + differential correspondence with credit scripts",
     ),
     "C11": dict(
         engine="world",
@@ -122,7 +140,7 @@ def main():
             {"name": "tables", "path": "harness/src/tables.rs -> lean/ZmqVerif/Gen/Tables.lean", "serves_properties": ["C01", "C03", "C04"], "kind_free_text": "finite tables regenerated from the real code's behaviour on every run; theorems re-proved over them by decide"},
             {"name": "codec", "path": "harness/src/codec.rs + lean/Driver/Codec.lean", "serves_properties": ["C01", "C02", "C03"], "kind_free_text": "real ZmqCodec vs the Lean decoder/encoder model over a line protocol; hostile mode with counting allocator and small-stack thread"},
             {"name": "fq", "path": "harness/src/fq.rs + lean/Driver/Fq.lean", "serves_properties": ["C05", "C06"], "kind_free_text": "real FairQueue (via __verif::FairQueueProbe) over scripted streams with window actions and a counting receiver waker vs the Lean micro-step model, exact schedule replay"},
-            {"name": "world", "path": "harness/src/world.rs + harness/src/pipe.rs + lean/Driver/World.lean (Model/World.lean)", "serves_properties": ["C07", "C08", "C11", "C12", "C13", "C14"], "kind_free_text": "any number of REAL sockets + scripted in-memory pipes attached through the real handshake + user futures polled one poll at a time; the Lean World model replays the same schedule and must predict every line"},
+            {"name": "world", "path": "harness/src/world.rs + harness/src/pipe.rs + lean/Driver/World.lean (Model/World.lean)", "serves_properties": ["C04", "C07", "C08", "C09", "C10", "C11", "C12", "C13", "C14"], "kind_free_text": "any number of REAL sockets + scripted in-memory pipes attached through the real handshake + user futures polled one poll at a time; the Lean World model replays the same schedule and must predict every line"},
             {"name": "endpoint", "path": "harness/src/endpoint.rs + lean/Driver/Endpoint.lean", "serves_properties": ["C19"], "kind_free_text": "real Endpoint::from_str/Display and std::net vs the Lean endpoint and IP text models"},
             {"name": "spec", "path": "lean/Driver/Spec.lean", "serves_properties": ["C01"], "kind_free_text": "Lean Spec predicates (strict RFC-23 grammar) evaluated on bytes the implementation produced"},
         ],
